@@ -105,9 +105,30 @@ def gen_case(rng, tier, i):
         if spec['aperture'][0] == 'objectNA':
             spec['aperture'][1] = min(spec['aperture'][1], 0.95)
     wl = float(spec['wavelengths'][int(rng.integers(len(spec['wavelengths'])))][0])
-    return dict(kind='random', spec=spec, info=info, classes=classes + (['over-aperture'] if over > 1 else []) +
+    case = dict(kind='random', spec=spec, info=info, classes=classes + (['over-aperture'] if over > 1 else []) +
                 (['hostile-paraboloid-axial'] if hostile else []) + (['cheb-norm-1'] if cheb1 else []),
                 Hy=Hy.tolist(), Px=Px.tolist(), Py=Py.tolist(), wl=wl)
+    if not hostile and not cheb1 and rng.random() < 0.2:
+        # the lens is traced once, THEN edited through the public setters, then judged against the edited prescription
+        K = len(spec['surfaces'])
+        edits = []
+        for _ in range(int(rng.integers(1, 3))):
+            k = int(rng.integers(1, K))
+            su = spec['surfaces'][k - 1]
+            kind = str(rng.choice(['index', 'radius', 'thickness', 'conic']))
+            curved = su.get('radius', 'inf') != 'inf'
+            if kind == 'index' and su.get('medium') != 'mirror' and spec['surfaces'][k].get('medium') != 'mirror':
+                edits.append(['index', k, round(float(rng.uniform(1.3, 1.95)), 6)])
+            elif kind == 'radius' and su.get('type', 'standard') in ('standard', 'even_asphere') and curved:
+                edits.append(['radius', k, round(float(su['radius']) * float(rng.uniform(0.7, 1.5)), 6)])
+            elif kind == 'conic' and su.get('type', 'standard') in ('standard', 'even_asphere') and curved:
+                edits.append(['conic', k, round(float(rng.uniform(-1.5, 0.5)), 6)])
+            elif kind == 'thickness':
+                edits.append(['thickness', k, round(float(su['t']) * float(rng.uniform(0.5, 1.5)), 6)])
+        if edits:
+            case['edits'] = edits
+            case['classes'] = case['classes'] + ['edited-after-first-use']
+    return case
 
 
 def lib_media(lens, wl):
@@ -230,10 +251,31 @@ def check_case(case, rec):
     else:
         spec = case['spec']
         lens = L.build(spec)
-        zs = L.vertex_positions(spec)
-        surfs = spec['surfaces']
         wl = case['wl']
         Px, Py, Hy = np.array(case['Px']), np.array(case['Py']), np.array(case['Hy'])
+        if case.get('edits'):
+            import copy
+            try:
+                lens.trace_generic(np.zeros_like(Hy), Hy.copy(), Px.copy(), Py.copy(), wl)
+            except ValueError as e:
+                if 'Chebyshev input coordinates' in str(e):
+                    rec.cls('chebyshev-domain-error-skipped')
+                    return
+                raise
+            spec = copy.deepcopy(spec)
+            for kind_, k_, v_ in case['edits']:
+                su_ = spec['surfaces'][k_ - 1]
+                if kind_ == 'index':
+                    lens.set_index(v_, k_); su_['medium'] = {'n': v_}
+                elif kind_ == 'radius':
+                    lens.set_radius(v_, k_); su_['radius'] = v_
+                elif kind_ == 'conic':
+                    lens.set_conic(v_, k_); su_['conic'] = v_
+                else:
+                    lens.set_thickness(v_, k_); su_['t'] = v_
+                rec.event('edits_applied')
+        zs = L.vertex_positions(spec)
+        surfs = spec['surfaces']
         classes = case.get('classes', [])
         rec.cls(*(classes or ['axial-plain']))
         rec.cls(*L.class_names(case['info']))
